@@ -146,6 +146,49 @@ func c20zipBytes(ents []c20ent, rng *rand.Rand) ([]byte, error) {
 	return buf.Bytes(), nil
 }
 
+// c20slashMark stands for a '/' that archive/tar and archive/zip would refuse to write
+// (regular file whose name ends in a slash); it is patched into the finished archive.
+const c20slashMark = "\x01"
+
+func c20patchTar(b []byte) []byte {
+	if !bytes.Contains(b, []byte(c20slashMark)) {
+		return b
+	}
+	for off := 0; off+512 <= len(b); {
+		h := b[off : off+512]
+		if bytes.Equal(h, make([]byte, 512)) {
+			break
+		}
+		size, _ := strconv.ParseInt(strings.Trim(string(h[124:136]), " \x00"), 8, 64)
+		patched := false
+		for i := 0; i < 100; i++ {
+			if h[i] == c20slashMark[0] {
+				h[i] = '/'
+				patched = true
+			}
+		}
+		if patched {
+			copy(h[148:156], "        ")
+			sum := 0
+			for _, c := range h {
+				sum += int(c)
+			}
+			copy(h[148:156], fmt.Sprintf("%06o\x00 ", sum))
+		}
+		off += 512 + int((size+511)/512*512)
+	}
+	return b
+}
+
+func c20patchZip(b []byte, ents []c20ent) []byte {
+	for _, e := range ents {
+		if strings.Contains(e.Name, c20slashMark) {
+			b = bytes.ReplaceAll(b, []byte(e.Name), []byte(strings.ReplaceAll(e.Name, c20slashMark, "/")))
+		}
+	}
+	return b
+}
+
 func c20gz(b []byte) []byte {
 	var buf bytes.Buffer
 	gz := gzip.NewWriter(&buf)
@@ -180,19 +223,23 @@ func c20ext(format string) string {
 func c20build(format string, ents []c20ent, rng *rand.Rand) ([]byte, error) {
 	switch format {
 	case "zip":
-		return c20zipBytes(ents, rng)
+		b, err := c20zipBytes(ents, rng)
+		if err != nil {
+			return nil, err
+		}
+		return c20patchZip(b, ents), nil
 	case "tgz":
 		b, err := c20tarBytes(ents)
 		if err != nil {
 			return nil, err
 		}
-		return c20gz(b), nil
+		return c20gz(c20patchTar(b)), nil
 	}
 	b, err := c20tarBytes(ents)
 	if err != nil {
 		return nil, err
 	}
-	return c20xz(b)
+	return c20xz(c20patchTar(b))
 }
 
 func c20extract(format, arc, dest string) (err error) {
@@ -451,13 +498,15 @@ type c20case struct {
 	Ents    []c20ent
 	Origin  string // matrix | tree | combo
 	Shape   string
+	arc     []byte // built archive (prepare)
+	arcErr  error
 }
 
 const c20depth = 7
 
 type c20layout struct{ root, deep, outside, sentinel, dest string }
 
-func c20mkLayout(root string) (c20layout, error) {
+func c20layoutOf(root string) c20layout {
 	l := c20layout{root: root}
 	l.deep = root
 	for i := 1; i <= c20depth; i++ {
@@ -466,6 +515,11 @@ func c20mkLayout(root string) (c20layout, error) {
 	l.outside = filepath.Join(l.deep, "outside")
 	l.sentinel = filepath.Join(l.deep, "sentinel")
 	l.dest = filepath.Join(l.sentinel, "dest")
+	return l
+}
+
+func c20mkLayout(root string) (c20layout, error) {
+	l := c20layoutOf(root)
 	for _, d := range []string{l.outside, filepath.Join(l.outside, "sub"), l.dest, filepath.Join(root, "arc")} {
 		if err := os.MkdirAll(d, 0o755); err != nil {
 			return l, err
@@ -515,7 +569,9 @@ func c20classes() []c20class {
 		}},
 		{"duplicate-shrink", "benign", all, func(r *rand.Rand, d func() []byte) []c20ent {
 			a := d()
-			return []c20ent{c20f("a.txt", append(append([]byte{}, a...), []byte("-tail-of-the-first-version")...)), c20f("a.txt", a)}
+			first := append([]byte("FIRST VERSION (longer) "), a...)
+			first = append(first, []byte(" -tail-of-the-first-version")...)
+			return []c20ent{c20f("a.txt", first), c20f("a.txt", a)}
 		}},
 		{"duplicate-grow", "benign", all, func(r *rand.Rand, d func() []byte) []c20ent {
 			a := d()
@@ -590,7 +646,7 @@ func c20classes() []c20class {
 			return []c20ent{c20d("c/"), c20f("c/x", d()), c20f("c", d())}
 		}},
 		{"file-trailing-slash", "confine", all, func(r *rand.Rand, d func() []byte) []c20ent {
-			return []c20ent{c20f("f.txt/", d())}
+			return []c20ent{c20f("f.txt"+c20slashMark, d()), c20f("g"+c20slashMark, d()), c20f("g/inner.txt", d())}
 		}},
 		{"long-name-300", "confine", all, func(r *rand.Rand, d func() []byte) []c20ent {
 			return []c20ent{c20f(strings.Repeat("L", 300), d())}
@@ -632,7 +688,13 @@ func c20subst(ents []c20ent, l c20layout) []c20ent {
 
 // ---------------------------------------------------------------- environment shared by the stages
 
+type c20concArc struct {
+	ents []c20ent
+	body []byte
+}
+
 type c20env struct {
+	concArc map[string]*c20concArc
 	t       *testing.T
 	rep     *vReport
 	work    string
@@ -676,8 +738,8 @@ func (env *c20env) describe(c *c20case, l c20layout, err error, extra []string) 
 	}
 	fmt.Fprintf(&sb, "\nre-run only this case: VERIF_SEED=%d VERIF_C20_ONLY=%d ./run C20 %s\n", vSeed(), c.ID, os.Getenv("VERIF_TIER"))
 	files := map[string]string{"case.txt": sb.String()}
-	if b, e2 := c20build(c.Format, c20subst(c.Ents, l), nil); e2 == nil && len(b) < 400000 {
-		files["archive"+c20ext(c.Format)+".b64"] = base64.StdEncoding.EncodeToString(b)
+	if len(c.arc) > 0 && len(c.arc) < 400000 {
+		files["archive"+c20ext(c.Format)+".b64"] = base64.StdEncoding.EncodeToString(c.arc)
 	}
 	return files
 }
@@ -693,15 +755,20 @@ func (env *c20env) runCase(c *c20case) {
 		return
 	}
 	defer os.RemoveAll(root)
+	if os.Getenv("VERIF_C20_TIMING") != "" {
+		tStart := time.Now()
+		defer func() {
+			fmt.Printf("C20TIMING %d %s %s %s %s %dms\n", c.ID, c.Origin, c.Class, c.Format, c.Content, time.Since(tStart).Milliseconds())
+		}()
+	}
 	ents := c20subst(c.Ents, l)
-	crng := rand.New(rand.NewSource(int64(c.ID)*7919 + vSeed()))
-	arcBytes, err := c20build(c.Format, ents, crng)
-	if err != nil {
+	if c.arcErr != nil {
 		rep.Count("unbuildable_"+c.Format+"_"+c.Class, 1)
+		rep.Fail("monitor:unbuildable", fmt.Sprint(c.ID), fmt.Sprintf("%s/%s: %v", c.Format, c.Class, c.arcErr), nil)
 		return
 	}
 	arc := filepath.Join(root, "arc", "a"+c20ext(c.Format))
-	if err := os.WriteFile(arc, arcBytes, 0o644); err != nil {
+	if err := os.WriteFile(arc, c.arc, 0o644); err != nil {
 		rep.Fail("monitor:write", fmt.Sprint(c.ID), err.Error(), nil)
 		return
 	}
@@ -751,7 +818,11 @@ func (env *c20env) runCase(c *c20case) {
 	}
 }
 
-func (env *c20env) runAll(cases []*c20case) {
+func (env *c20env) caseRoot(c *c20case) string {
+	return filepath.Join(env.work, fmt.Sprintf("k%06d", c.ID))
+}
+
+func (env *c20env) parallel(cases []*c20case, fn func(*c20case)) {
 	var wg sync.WaitGroup
 	ch := make(chan *c20case)
 	for w := 0; w < env.workers; w++ {
@@ -759,18 +830,81 @@ func (env *c20env) runAll(cases []*c20case) {
 		go func() {
 			defer wg.Done()
 			for c := range ch {
-				env.runCase(c)
+				fn(c)
 			}
 		}()
 	}
 	for _, c := range cases {
-		if env.only >= 0 && c.ID != env.only {
-			continue
-		}
 		ch <- c
 	}
 	close(ch)
 	wg.Wait()
+}
+
+// prepare builds the archives of a batch.  Starting a process is expensive here (~80 ms), so
+// all tar.xz archives of the batch are compressed by a few `xz` invocations over many files.
+func (env *c20env) prepare(cases []*c20case) {
+	xzdir := filepath.Join(env.work, "xzbatch")
+	os.MkdirAll(xzdir, 0o755)
+	env.parallel(cases, func(c *c20case) {
+		ents := c20subst(c.Ents, c20layoutOf(env.caseRoot(c)))
+		crng := rand.New(rand.NewSource(int64(c.ID)*7919 + vSeed()))
+		if c.Format != "txz" {
+			c.arc, c.arcErr = c20build(c.Format, ents, crng)
+			return
+		}
+		b, err := c20tarBytes(ents)
+		if err != nil {
+			c.arcErr = err
+			return
+		}
+		c.arcErr = os.WriteFile(filepath.Join(xzdir, fmt.Sprintf("%d.tar", c.ID)), c20patchTar(b), 0o644)
+	})
+	var groups [][]string
+	n := 0
+	for _, c := range cases {
+		if c.Format == "txz" && c.arcErr == nil {
+			if n%48 == 0 {
+				groups = append(groups, nil)
+			}
+			groups[len(groups)-1] = append(groups[len(groups)-1], filepath.Join(xzdir, fmt.Sprintf("%d.tar", c.ID)))
+			n++
+		}
+	}
+	var wg sync.WaitGroup
+	sem := make(chan bool, env.workers)
+	for _, g := range groups {
+		g := g
+		wg.Add(1)
+		sem <- true
+		go func() {
+			defer wg.Done()
+			defer func() { <-sem }()
+			exec.Command("xz", append([]string{"-0", "-T1", "-q"}, g...)...).Run()
+		}()
+	}
+	wg.Wait()
+	for _, c := range cases {
+		if c.Format == "txz" && c.arcErr == nil {
+			p := filepath.Join(xzdir, fmt.Sprintf("%d.tar.xz", c.ID))
+			c.arc, c.arcErr = os.ReadFile(p)
+			os.Remove(p)
+		}
+	}
+}
+
+func (env *c20env) runAll(all []*c20case) {
+	var cases []*c20case
+	for _, c := range all {
+		if env.only < 0 || c.ID == env.only {
+			cases = append(cases, c)
+		}
+	}
+	env.prepare(cases)
+	env.parallel(cases, env.runCase)
+	for _, c := range cases {
+		c.arc, c.Ents = nil, nil
+	}
 }
 
 // ---------------------------------------------------------------- stage: complete matrix
@@ -798,11 +932,15 @@ func (env *c20env) matrix(rng *rand.Rand) {
 	env.rep.Extra["matrix_cells_not_representable"] = na
 	env.rep.Extra["matrix_cases"] = len(cases)
 	env.rep.Extra["matrix_exhaustive"] = map[string]any{"exhaustive": true, "subspace": "name class x archive format x content kind (every representable cell, once per run)"}
-	env.runAll(cases)
 	if len(cases) > 0 {
 		c := cases[len(cases)/2]
-		env.rep.Sample(map[string]any{"stage": "matrix", "class": c.Class, "format": c.Format, "content": c.Content, "expect": c.Expect, "entries": fmt.Sprint(c.Ents)})
+		var es []string
+		for _, e := range c.Ents {
+			es = append(es, e.String())
+		}
+		env.rep.Sample(map[string]any{"stage": "matrix", "class": c.Class, "format": c.Format, "content": c.Content, "expect": c.Expect, "entries": es})
 	}
+	env.runAll(cases)
 }
 
 // ---------------------------------------------------------------- stage: random trees and hostile combinations
@@ -922,8 +1060,20 @@ func c20randTree(rng *rand.Rand, format string, open map[string]bool) ([]c20ent,
 
 func (env *c20env) random(rng *rand.Rand) {
 	var cases []*c20case
+	var sampleCase *c20case
+	flush := func(force bool) {
+		if len(cases) >= 600 || force {
+			if sampleCase == nil && len(cases) > 5 {
+				cp := *cases[4]
+				sampleCase = &cp
+			}
+			env.runAll(cases)
+			cases = nil
+		}
+	}
 	ntrees := vN(200, 12000)
 	for i := 0; i < ntrees; i++ {
+		flush(false)
 		// one tree per format: the generator depends on the format only where a construct is avoided
 		for _, f := range c20formats {
 			ents, shape := c20randTree(rng, f, env.open)
@@ -942,12 +1092,13 @@ func (env *c20env) random(rng *rand.Rand) {
 	ncombo := vN(180, 12000)
 	avoided := 0
 	for i := 0; i < ncombo; i++ {
+		flush(false)
 		f := c20formats[rng.Intn(3)]
 		cl := hostile[rng.Intn(len(hostile))]
 		if !strings.Contains(cl.formats, f) {
 			f = "tgz"
 		}
-		if f == "zip" && env.open["C20-zip-slip"] && cl.expect == "reject" {
+		if f == "zip" && env.open["C20-zip-slip"] && (cl.expect == "reject" || cl.name == "absolute-dotdot") {
 			avoided++
 			f = []string{"tgz", "txz"}[rng.Intn(2)]
 		}
@@ -974,9 +1125,9 @@ func (env *c20env) random(rng *rand.Rand) {
 	env.rep.Extra["random_trees"] = ntrees * 3
 	env.rep.Extra["random_combos"] = ncombo
 	env.rep.Extra["random_combos_moved_off_avoided_construct"] = avoided
-	env.runAll(cases)
-	if len(cases) > 5 {
-		c := cases[4]
+	flush(true)
+	if sampleCase != nil {
+		c := sampleCase
 		var es []string
 		for _, e := range c.Ents {
 			es = append(es, e.String())
@@ -1268,9 +1419,9 @@ func c20concArchive(rng *rand.Rand, top string, big bool) []c20ent {
 		dirs = append(dirs, d)
 		ents = append(ents, c20d(d))
 	}
-	nf := 25 + rng.Intn(40)
+	nf := 20 + rng.Intn(20)
 	if big {
-		nf = 500 + rng.Intn(300)
+		nf = 220 + rng.Intn(80)
 	}
 	for i := 0; i < nf; i++ {
 		ck := "text"
@@ -1370,6 +1521,12 @@ func TestVerifC20Child(t *testing.T) {
 func (env *c20env) runRound(srv *c20server, r c20round, rng *rand.Rand) {
 	rep := env.rep
 	key := fmt.Sprintf("r%d", r.ID)
+	if os.Getenv("VERIF_C20_TIMING") != "" {
+		t0 := time.Now()
+		defer func() {
+			fmt.Printf("C20TIMING round %d %s %s %s n=%d procs=%v big=%v starts=%v faults=%v %dms\n", r.ID, r.Scenario, r.Entry, r.Format, r.N, r.Procs, r.Big, r.Starts, r.Faults, time.Since(t0).Milliseconds())
+		}()
+	}
 	parent := filepath.Join(env.work, "conc", key)
 	os.MkdirAll(parent, 0o755)
 	defer os.RemoveAll(parent)
@@ -1408,21 +1565,29 @@ func (env *c20env) runRound(srv *c20server, r c20round, rng *rand.Rand) {
 	} else {
 		leftovers = []string{sp.Dst + ".extract", sp.Dst + ".extract.temp"}
 	}
-	var ents []c20ent
-	if r.Entry == "lib" {
-		ents = c20concArchive(rng, "t", r.Big)
-		for i := range ents { // no single top directory: strip it
-			ents[i].Name = strings.TrimPrefix(ents[i].Name, "t/")
+	// archives are reused between rounds (building one under the race detector is slow)
+	ck := fmt.Sprintf("%s|%s|%v", r.Entry, r.Format, r.Big)
+	ca, ok := env.concArc[ck]
+	if !ok {
+		var ents []c20ent
+		if r.Entry == "lib" {
+			ents = c20concArchive(rng, "t", r.Big)
+			for i := range ents { // no single top directory: strip it
+				ents[i].Name = strings.TrimPrefix(ents[i].Name, "t/")
+			}
+			ents = ents[1:]
+		} else {
+			ents = c20concArchive(rng, top, r.Big)
 		}
-		ents = ents[1:]
-	} else {
-		ents = c20concArchive(rng, top, r.Big)
+		body, err := c20build(r.Format, ents, rng)
+		if err != nil {
+			rep.Fail("monitor:conc-build", key, err.Error(), nil)
+			return
+		}
+		ca = &c20concArc{ents, body}
+		env.concArc[ck] = ca
 	}
-	body, err := c20build(r.Format, ents, rng)
-	if err != nil {
-		rep.Fail("monitor:conc-build", key, err.Error(), nil)
-		return
-	}
+	ents, body := ca.ents, ca.body
 	exp := c20expect(ents, top)
 	expDigest := c20expectDigest(exp)
 	st := &c20roundState{r: r, body: body, lockPath: lockPath}
@@ -1512,9 +1677,9 @@ func (env *c20env) runRound(srv *c20server, r c20round, rng *rand.Rand) {
 	}
 	wg.Wait()
 	rep.Eval(r.N)
-	rep.Count("conc_requests_served", int(st.nreq))
+	rep.Count("requests_served", int(st.nreq))
 	if int(st.maxIn) > 1 {
-		rep.Count("conc_rounds_with_overlapping_downloads", 1)
+		rep.Count("rounds_with_overlapping_downloads", 1)
 	}
 	rep.Sig(fmt.Sprintf("conc|%s|%s|%s|%d|%v|%v|%v", r.Scenario, r.Entry, r.Format, r.N, r.Starts, r.Faults, r.Procs))
 
@@ -1647,7 +1812,7 @@ func (env *c20env) conc(rng *rand.Rand) {
 			if (r.Faults[0] == "fail500" || r.Faults[0] == "truncate") && (r.Faults[1] == "fail500" || r.Faults[1] == "truncate") {
 				r.Faults[1] = "ok"
 			}
-			env.rep.Count("conc_rounds_reduced_to_avoid_open_finding", 1)
+			env.rep.Count("rounds_reduced_to_avoid_open_finding", 1)
 		}
 		r.Starts = []string{"now"}
 		for k := 1; k < r.N; k++ {
@@ -1658,21 +1823,18 @@ func (env *c20env) conc(rng *rand.Rand) {
 			env.rep.Sample(map[string]any{"stage": "concurrent round", "round": r})
 		}
 	}
-	env.rep.Extra["conc_probe_rounds"] = nprobe
-	env.rep.Extra["conc_random_rounds"] = nrand
+	env.rep.Extra["probe_rounds"] = nprobe
+	env.rep.Extra["random_rounds"] = nrand
 }
 
-// ---------------------------------------------------------------- entry point
+// ---------------------------------------------------------------- entry points
 
-func TestVerifC20(t *testing.T) {
-	rep := vNewReport("real extractTarGz/extractTarXz/extractZip on generated archives: every representable cell of (40 entry-name classes x 3 formats x 4 content kinds) on every run + random trees and hostile combinations by seed; oracle = snapshot of the whole case root outside dest unchanged, escaping classes end in an error, well-formed archives reproduced exactly (dirs, files, bytes). Real checkDownloadAndExtract{Lib,WasiSDK,ESPClang} called by 2-4 goroutines/processes against a loopback server that fails/truncates/stalls/slows: complete copy at every successful return and at the end, errors <= faulty responses, no temp copies left; deterministic lock hand-over probe via /proc/locks; all under the Go race detector. distinct = distinct (stage, class, format, content kind, tree shape / round plan)")
-	defer rep.Write()
+func c20newEnv(t *testing.T, rep *vReport) *c20env {
 	work, err := os.MkdirTemp(os.Getenv("VERIF_WORK"), "c20x")
 	if err != nil {
 		t.Fatal(err)
 	}
-	defer os.RemoveAll(work)
-	env := &c20env{t: t, rep: rep, work: work, open: c20openFindings(), only: -1, workers: 8}
+	env := &c20env{t: t, rep: rep, work: work, open: c20openFindings(), only: -1, workers: 8, concArc: map[string]*c20concArc{}}
 	if v, err := strconv.Atoi(os.Getenv("VERIF_C20_ONLY")); err == nil {
 		env.only = v
 	}
@@ -1685,17 +1847,42 @@ func TestVerifC20(t *testing.T) {
 	}
 	sort.Strings(avoided)
 	rep.Extra["avoided_constructs_for_open_findings"] = avoided
+	return env
+}
+
+// Part 1: hostile and benign archives through the real extract functions (sequential code: run without -race,
+// the race detector makes building the archives 30x slower and has nothing to observe here).
+func TestVerifC20Extract(t *testing.T) {
+	rep := vNewReport("real extractTarGz/extractTarXz/extractZip on generated archives: every representable cell of (39 entry-name classes x 3 formats x 4 content kinds) on every run + random trees and hostile combinations by seed; oracle = snapshot of the whole case root outside dest unchanged, escaping classes end in an error, well-formed archives reproduced exactly (dirs, files, bytes). distinct = distinct (stage, class, format, content kind, tree shape)")
+	defer rep.Write()
+	env := c20newEnv(t, rep)
+	defer os.RemoveAll(env.work)
+	seed := vSeed()
+	stages := os.Getenv("VERIF_C20_STAGES") // debugging aid: subset of "matrix,random"
+	on := func(s string) bool { return stages == "" || strings.Contains(stages, s) }
+	t0 := time.Now()
+	if on("matrix") {
+		env.matrix(rand.New(rand.NewSource(seed*1000003 + 1)))
+	}
+	t1 := time.Now()
+	if on("random") {
+		env.random(rand.New(rand.NewSource(seed*1000003 + 2)))
+	}
+	rep.Extra["seconds_matrix"] = int(t1.Sub(t0).Seconds())
+	rep.Extra["seconds_random"] = int(time.Since(t1).Seconds())
+}
+
+// Part 2: lock hand-over probe and concurrent requests, under the race detector.
+func TestVerifC20Conc(t *testing.T) {
+	rep := vNewReport("real checkDownloadAndExtract{Lib,WasiSDK,ESPClang} called by 2-4 goroutines/processes for one destination against a loopback server that fails/truncates/stalls/slows responses: complete copy at every successful return and at the end, failed requests <= faulty responses, no temporary copies left; deterministic lock hand-over probe decided from /proc/locks; Go race detector on. distinct = distinct round plans (scenario, entry point, format, requesters, start conditions, response faults, goroutines|processes)")
+	defer rep.Write()
+	env := c20newEnv(t, rep)
+	defer os.RemoveAll(env.work)
 	seed := vSeed()
 	t0 := time.Now()
-	if env.only < 0 {
-		env.lockProbe()
-	}
-	env.matrix(rand.New(rand.NewSource(seed*1000003 + 1)))
+	env.lockProbe()
 	t1 := time.Now()
-	env.random(rand.New(rand.NewSource(seed*1000003 + 2)))
-	t2 := time.Now()
 	env.conc(rand.New(rand.NewSource(seed*1000003 + 3)))
-	rep.Extra["seconds_matrix"] = int(t1.Sub(t0).Seconds())
-	rep.Extra["seconds_random"] = int(t2.Sub(t1).Seconds())
-	rep.Extra["seconds_conc"] = int(time.Since(t2).Seconds())
+	rep.Extra["seconds_lockprobe"] = int(t1.Sub(t0).Seconds())
+	rep.Extra["seconds_rounds"] = int(time.Since(t1).Seconds())
 }
